@@ -1,6 +1,7 @@
 (* C04 — A crash at any write point is recoverable and loses no acknowledged work.
    Only statements, each closed by [exact] of a lemma proved in Proofs/, and Print Assumptions. *)
 From DV Require Import Base.Prelude Base.Int Model.FileLog Proofs.FileLog Model.Persist Proofs.Persist.
+From DV Require Import Model.VKey Proofs.VKey Gen.Locks.
 Local Open Scope N_scope.
 
 (* ---- part 1: the append-only log (storage/filelog/filelog.go) ---- *)
@@ -153,6 +154,51 @@ Theorem C04_delete_data_refuted :
             xobserve w_conf (apply_xs w_x (firstn k ws)) <> xobserve w_conf (apply_xs w_x ws).
 Proof. exact delete_data_refuted. Qed.
 Print Assumptions C04_delete_data_refuted.
+
+(* ---- below the store interface: the transactions of the badger store ----
+   A process death keeps the transactions that committed and nothing of the one in flight.  The
+   versioned Put and Delete of one key touch two stored keys (the value and the tombstone of the
+   version): they are crash-atomic because each is ONE read-write transaction -- which is read off
+   storage/badger on every run (table badger_txns of Gen/Locks.v). *)
+Theorem C04_store_call_one_transaction :
+  one_write_txn badger_txns = true /\
+  lists_call name_put badger_txns = true /\ lists_call name_delete badger_txns = true.
+Proof. exact generated_one_write_txn. Qed.
+Print Assumptions C04_store_call_one_transaction.
+
+(* a store call of one transaction: whatever a crash leaves is the state before or the state after *)
+Theorem C04_one_transaction_crash_atomic : forall s (call : list txn) k,
+  length call = 1%nat -> crash_state s call k = s \/ crash_state s call k = apply_txns s call.
+Proof. exact one_txn_crash_atomic. Qed.
+Print Assumptions C04_one_transaction_crash_atomic.
+
+(* so every read, at every version, after a crash during Put / Delete is the read before or after *)
+Theorem C04_put_crash_atomic : forall s ver x k path,
+  vread (crash_state s (put_call ver x) k) path = vread s path \/
+  vread (crash_state s (put_call ver x) k) path = vread (apply_txns s (put_call ver x)) path.
+Proof. exact put_crash_atomic. Qed.
+Print Assumptions C04_put_crash_atomic.
+
+Theorem C04_delete_crash_atomic : forall s ver k path,
+  vread (crash_state s (delete_call ver) k) path = vread s path \/
+  vread (crash_state s (delete_call ver) k) path = vread (apply_txns s (delete_call ver)) path.
+Proof. exact delete_crash_atomic. Qed.
+Print Assumptions C04_delete_crash_atomic.
+
+(* A Delete that commits the removal of the value before it writes the tombstone is not: a version
+   with its own value over an ancestor's shows the ancestor's value in between. *)
+Theorem C04_split_delete_refuted :
+  vread w_vkey [2; 1] = Some 20 /\
+  vread (apply_txns w_vkey (delete_call_split 2)) [2; 1] = None /\
+  vread (apply_txns w_vkey (delete_call 2)) [2; 1] = None /\
+  vread (crash_state w_vkey (delete_call_split 2) 1) [2; 1] = Some 10.
+Proof. exact split_delete_refuted. Qed.
+Print Assumptions C04_split_delete_refuted.
+
+(* the table obligation can fail *)
+Example C04_one_write_txn_can_fail :
+  one_write_txn [(name_delete, 2, 1)]%nat = false /\ lists_call name_put [] = false.
+Proof. vm_compute. split; reflexivity. Qed.
 
 (* Non-vacuity: a reachable state with two repos, a merge and a deleted repo; a crash after the
    second of the four writes of a new version leaves an orphan cache entry and the old repos. *)
